@@ -232,8 +232,9 @@ func TestC08(t *testing.T) {
 				sig := limitKindNames[kind] + ":more-latency-more-limit"
 				if kind == 1 && pa.EstF > float64(la.MaxL) {
 					sig += ":estimate-above-max" // known finding F18
-				} else if kind == 1 && pa.EstF == float64(la.MaxL) && ob.Est == pa.Est && oa.Est == pa.Est-1 {
-					// known finding F24: the stored estimate equals the maximum exactly; the increase branch clamps to the maximum and the smoothing
+				} else if kind == 1 && pa.EstF > float64(la.MaxL)-1 && pa.EstF <= float64(la.MaxL) && pa.EstF-math.Floor(pa.EstF) < 1.0/1048576 && ob.Est == pa.Est && oa.Est == pa.Est-1 {
+					// known finding F24: the stored estimate is an integer (to within 2^-20) inside (max-1, max] - in practice the maximum itself; the increase
+					// branch clamps to the maximum, less than one above the estimate, and the smoothing
 					// (1-s)*max + s*max rounds below it - the lower RTT reports max-1, the higher RTT (no change) reports max
 					sig += ":estimate-at-ceiling"
 				}
